@@ -119,7 +119,7 @@ def cmd_run(targets, tier, all_checks, seeds):
             prev = json.load(open(rp))
         prev[tier + ("-all" if all_checks else "")] = res
         json.dump(prev, open(rp, "w"), indent=1)
-        print(pid, x, "caught" if res["caught_by_own_check"] else "MISSED", "by", res["caught_by"],
+        print(pid, x, ("PATCH DOES NOT APPLY" if res.get("error") else ("caught" if res["caught_by_own_check"] else "MISSED")), "by", res["caught_by"],
               "" if res["caught_with_failing_input"] or not res["caught_by_own_check"] else "(no failing input)")
     # regenerate the model from the clean tree so that a following manual build sees /repo
     sh(f"cd {V} && python3 tools/pylean/gen.py {REPO} lean/NiVerif/Gen")
